@@ -319,7 +319,7 @@ func connectToRules(class, sh, sp string) []string {
 	switch class {
 	case "none":
 		return nil
-	case "exact":
+	case "exact", "exactPortZeros":
 		return []string{sh + ":" + sp + ":" + R}
 	case "hostAnyPort":
 		return []string{sh + "::" + R}
@@ -658,11 +658,16 @@ func (pe *pipeEnv) runCase(c *pipeCase) map[string]any {
 	}
 	path := c.pathPrefix + fmt.Sprintf("/p%d?x=%d", c.idx, c.idx)
 	method := "GET"
+	cport, gport := ":8080", ""
+	if c.Cfg.Ct == "exactPortZeros" && c.Out.Hop.K == "direct" {
+		// the port the rule names, spelt with a leading zero by the client
+		cport, gport = ":08080", ":080"
+	}
 	tunnelHost := host
 	var final *wireMsg
 	switch c.Req.Kind {
 	case "GET":
-		err = cl.send([]byte("GET http://" + host + path + " HTTP/1.1\r\nHost: " + host + "\r\n" + hdrs(cred, via) + "\r\n"))
+		err = cl.send([]byte("GET http://" + host + gport + path + " HTTP/1.1\r\nHost: " + host + gport + "\r\n" + hdrs(cred, via) + "\r\n"))
 	case "GETorigin":
 		err = cl.send([]byte("GET " + path + " HTTP/1.1\r\nHost: " + host + "\r\n" + hdrs(cred, via) + "\r\n"))
 	case "GET10":
@@ -672,7 +677,7 @@ func (pe *pipeEnv) runCase(c *pipeCase) map[string]any {
 		err = cl.send([]byte("POST http://" + host + path + " HTTP/1.1\r\nHost: " + host + "\r\nContent-Length: 5\r\n" + hdrs(cred, via) + "\r\nhello"))
 	case "CONNECT":
 		method = "CONNECT"
-		err = cl.send([]byte("CONNECT " + host + ":8080 HTTP/1.1\r\nHost: " + host + ":8080\r\n" + hdrs(cred, via) + "\r\n"))
+		err = cl.send([]byte("CONNECT " + host + cport + " HTTP/1.1\r\nHost: " + host + cport + "\r\n" + hdrs(cred, via) + "\r\n"))
 	case "MITMGET", "MITMGEThost":
 		method = "CONNECT"
 		var good []string
